@@ -430,15 +430,20 @@ def r04_7(prog: Program, rep):
     ref_branch = [x for x in ast.walk(w) if isinstance(x, ast.If) and "REF_DELTA" in norm(x.test)]
     ok = False
     for br in ref_branch:
-        for x in ast.walk(br):
-            if isinstance(x, ast.If) and isinstance(x.test, ast.Compare) and isinstance(x.test.ops[0], ast.In) \
-                    and isinstance(x.test.comparators[0], ast.Name) and x.test.comparators[0].id in sets \
-                    and any(isinstance(s, ast.Raise) for s in x.body):
-                # and the set grows on the chain: the ref-delta branch itself records the offset it moved to (every
-                # hop through a ref delta must be remembered, not only the start and the ofs hops)
-                grows = any(isinstance(c, ast.Call) and isinstance(c.func, ast.Attribute) and c.func.attr == "add"
-                            and dotted(c.func.value) == x.test.comparators[0].id for c in ast.walk(br))
-                ok = ok or grows
+        arm = [x for s_ in br.body for x in ast.walk(s_)]          # the REF_DELTA arm itself (not the elif arms hanging off it)
+        for x in arm:
+            if not (isinstance(x, ast.If) and any(isinstance(s, ast.Raise) for s in x.body)):
+                continue
+            # the membership test may be one conjunct of the condition (`off is not None and off in seen`)
+            conj = x.test.values if isinstance(x.test, ast.BoolOp) and isinstance(x.test.op, ast.And) else [x.test]
+            for t_ in conj:
+                if isinstance(t_, ast.Compare) and len(t_.ops) == 1 and isinstance(t_.ops[0], ast.In) \
+                        and isinstance(t_.comparators[0], ast.Name) and t_.comparators[0].id in sets:
+                    # and the set grows on the chain: the ref-delta branch itself records the offset it moved to (every
+                    # hop through a ref delta must be remembered, not only the start and the ofs hops)
+                    grows = any(isinstance(c, ast.Call) and isinstance(c.func, ast.Attribute) and c.func.attr == "add"
+                                and dotted(c.func.value) == t_.comparators[0].id for c in arm)
+                    ok = ok or grows
     rep.ob("R04.7", PACK, f.qual, "ref-delta branch tests a visited set (which grows along the chain) and raises", ok,
            "the ref-delta branch of the chain walk only detects a delta based on itself: a cycle of two or more crafted "
            "ref deltas loops forever with unbounded memory", w.lineno)
